@@ -137,14 +137,24 @@ def compiled_record_dict(gs):
     return {n: rt.node_record_to_dict(r) for n, r in rec.nodes.items()}
 
 
-def compiled_case(seed, nsteps=9, modes=("MCS", "GENERATIONAL", "TOPOLOGICAL"), prunes=(True, False), export=False, neps=2):
+def _spec_of(rng, kind):
+    if kind == "equal_rates":
+        return rt.rand_spec_equal_rates(rng)
+    if kind == "high_ratio":
+        return rt.rand_spec_high_ratio(rng)
+    return rt.rand_spec(rng)
+
+
+def compiled_case(seed, nsteps=9, modes=("MCS", "GENERATIONAL", "TOPOLOGICAL"), prunes=(True, False), export=False, neps=2, spec_kind="random"):
     """async recording -> graph -> compiled rollouts for every (mode, prune); returns async + compiled records."""
     import jax
     import numpy as onp
     from rex import base
 
     rng = random.Random(seed)
-    spec = rt.rand_spec(rng)
+    spec = _spec_of(rng, spec_kind)
+    if spec_kind == "high_ratio":
+        nsteps = min(nsteps, 5)
     lengths = [nsteps - (e % 2) * rng.randint(1, 3) for e in range(neps)]
     exp = _async_experiment(rng, spec, lengths)
     if exp is None:
@@ -155,7 +165,11 @@ def compiled_case(seed, nsteps=9, modes=("MCS", "GENERATIONAL", "TOPOLOGICAL"), 
     for mode in modes:
         for prune in prunes:
             t0 = time.time()
-            g = rt.compile_graph(run.nodes, run.sup, graphs_raw, mode=mode, prune=prune)
+            try:
+                g = rt.compile_graph(run.nodes, run.sup, graphs_raw, mode=mode, prune=prune)
+            except rt.CompileUnsupported as ex:
+                out.setdefault("unsupported", []).append(f"{mode}/prune={prune}: {ex}")
+                continue
             entry = dict(mode=mode, prune=prune, compile_s=round(time.time() - t0, 1), max_steps=int(g.max_steps), episodes=[])
             if export:
                 entry["timings"] = rt.timings_to_dict(g.timings)
@@ -328,7 +342,10 @@ def record_case(seed, nsteps=8):
         return out
     graphs_raw = base.ExperimentRecord(episodes=[full_rec]).to_graph()
     mode = rng.choice(["MCS", "GENERATIONAL", "TOPOLOGICAL"])
-    g = rt.compile_graph(run.nodes, run.sup, graphs_raw, mode=mode, prune=rng.random() < 0.7)
+    try:
+        g = rt.compile_graph(run.nodes, run.sup, graphs_raw, mode=mode, prune=rng.random() < 0.7)
+    except rt.CompileUnsupported:
+        g = rt.compile_graph(run.nodes, run.sup, graphs_raw, mode=mode, prune=True)
     tim = rt.timings_to_dict(g.timings)
     gs0 = g.init(rng=jax.random.PRNGKey(spec["seed"]), starting_eps=0)
     gs0 = gs0.replace(rng=run.gs0.rng, state=run.gs0.state, params=run.gs0.params)
@@ -430,7 +447,10 @@ def api_case(seed, nsteps=8):
     run, recs, dicts = exp
     graphs_raw = base.ExperimentRecord(episodes=recs).to_graph()
     mode = rng.choice(["MCS", "GENERATIONAL", "TOPOLOGICAL"])
-    g = rt.compile_graph(run.nodes, run.sup, graphs_raw, mode=mode, prune=rng.random() < 0.7)
+    try:
+        g = rt.compile_graph(run.nodes, run.sup, graphs_raw, mode=mode, prune=rng.random() < 0.7)
+    except rt.CompileUnsupported:
+        g = rt.compile_graph(run.nodes, run.sup, graphs_raw, mode=mode, prune=True)
     sup = run.sup.name
     out = dict(spec=spec, feats=sorted(rt.spec_features(spec)), mode=mode, max_eps=int(g.max_eps), max_steps=int(g.max_steps), diffs=[], checks=0)
     key = jax.random.PRNGKey(spec["seed"])
@@ -514,4 +534,75 @@ def api_case(seed, nsteps=8):
     z = g.rollout(g.init(rng=key), max_steps=3)
     if _same(_leaves(z), _leaves(g.rollout(x, max_steps=3))) is None:
         out["note_params_irrelevant"] = True
+    return out
+
+
+def sched_case(seed, nsteps=8, spec_kind="random", modes=("MCS", "GENERATIONAL", "TOPOLOGICAL"), prunes=(True, False), dynamic=False):
+    """C07 / C08: export every compiled instance (timings + windowed graph) for the Lean checker / ring replay;
+    with dynamic=True also run the compiled graph with user buffer sizes / padding / late starts and check payloads."""
+    import jax
+    import numpy as onp
+    from rex import base
+
+    rng = random.Random(seed)
+    spec = _spec_of(rng, spec_kind)
+    names = [n["name"] for n in spec["nodes"]]
+    if spec_kind == "high_ratio":
+        nsteps = min(nsteps, 5)
+    lengths = [nsteps, max(2, nsteps - rng.randint(1, 3))]
+    exp = _async_experiment(rng, spec, lengths)
+    if exp is None:
+        return dict(skipped="empty record", spec=spec)
+    run, recs, dicts = exp
+    graphs_raw = base.ExperimentRecord(episodes=recs).to_graph()
+    out = dict(spec=spec, feats=sorted(rt.spec_features(spec)), instances=[], dynamic=[])
+    init_out = {n: int(run.nodes[n].init_output().y) for n in names}
+    for mode in modes:
+        for prune in prunes:
+            try:
+                g = rt.compile_graph(run.nodes, run.sup, graphs_raw, mode=mode, prune=prune)
+            except rt.CompileUnsupported as ex:
+                out.setdefault("unsupported", []).append(f"{mode}/prune={prune}: {ex}")
+                continue
+            auto = rt.buffer_sizes_list(g, names)
+            for e in range(len(lengths)):
+                inst = rt.sched_instance(g, names, spec["supervisor"], prune, e)
+                out["instances"].append(dict(mode=mode, prune=prune, episode=e, inst=inst, sizes=auto, raw_sizes={k: [int(x) for x in v] for k, v in g._buffer_sizes.items()}))
+            if dynamic:
+                extra = {n: int(max(g._buffer_sizes[n]) + rng.randint(0, 3)) for n in g._buffer_sizes if len(g._buffer_sizes[n]) > 0 and rng.random() < 0.6}
+                pad = rng.choice([0, 1, 3])
+                g2 = rt.compile_graph(run.nodes, run.sup, graphs_raw, mode=mode, prune=prune, buffer_sizes=extra or None, extra_padding=pad)
+                for gg, label in ((g, "auto sizes"), (g2, f"buffer_sizes={extra} extra_padding={pad}")):
+                    for e, k0 in ((0, 0), (rng.randrange(len(lengths)), rng.choice([1, 2, 3]))):
+                        k0 = max(0, min(k0, gg.max_steps - 1))
+                        gs = gg.init(rng=jax.random.PRNGKey(spec["seed"]), starting_eps=e, starting_step=k0)
+                        gs = gs.replace(rng=run.gs0.rng, state=run.gs0.state, params=run.gs0.params)
+                        gs = gg.init_record(gs, params=False, rng=False, inputs=True, state=False, output=True)
+                        k0 = min(k0, gg.max_steps - 1)
+                        gs = gg.rollout(gs, max_steps=gg.max_steps - k0, carry_only=True)  # never re-run the (clipped) last partition
+                        rec = {n: rt.node_record_to_dict(r) for n, r in gs.aux["record"].nodes.items()}
+                        bad = []
+                        nreads = 0
+                        for n in names:
+                            r = rec[n]
+                            for i, q in enumerate(r["seq"]):
+                                if q < 0:
+                                    continue
+                                for src, w in r.get("inputs", {}).items():
+                                    for sq, d in zip(w["seq"][i], w["data"][i]):
+                                        nreads += 1
+                                        srow = rec[src]
+                                        if sq >= 0 and sq < len(srow["seq"]) and srow["seq"][sq] >= 0 and sq < len(srow.get("output", [])):
+                                            # producer ran in this execution: its recorded output (the supervisor's row may still be unwritten)
+                                            exp_d = srow["output"][sq]
+                                            if src == spec["supervisor"] and exp_d == -1:
+                                                continue
+                                        elif sq < 0 or k0 > 0:
+                                            exp_d = init_out[src]
+                                        else:
+                                            exp_d = None
+                                        if exp_d is None or d != exp_d:
+                                            bad.append(f"node {n} step {q}: window entry seq {sq} of {src} holds payload {d}, expected {exp_d}")
+                        out["dynamic"].append(dict(mode=mode, prune=prune, label=label, episode=e, start=k0, reads=nreads, bad=bad[:5], sizes=rt.buffer_sizes_list(gg, names, extra_padding=pad if gg is g2 else 0,
+                                                                                                                                             sizes=({**gg._buffer_sizes}))))
     return out
